@@ -93,27 +93,38 @@ def check_capacity_pairs(ctx: CheckContext, p: Program, r: Resolver, rule: str =
 
 
 # =========================================================================================
-def _graph_slices(p: Program, r: Resolver, gt: ClassInfo, lab: ClassInfo) -> Dict[str, List[Tuple[FuncInfo, Set[str], ast.AST]]]:
-    """graph type -> [(producer function, set of column labels sliced, node)]"""
-    out: Dict[str, List[Tuple[FuncInfo, Set[str], ast.AST]]] = {}
+def _graph_slices(p: Program, r: Resolver, gt: ClassInfo, lab: ClassInfo) -> Dict[str, List[Tuple[Optional[FuncInfo], Set[str], ast.AST, ModuleInfo]]]:
+    """graph type -> [(producer function or None for a module-level table, set of column labels, node, module)].
+    A producer is any dict literal keyed by GraphType members whose value contains a literal list/tuple of column labels
+    (`pt[[...]]` slices as well as declarative layout tables such as {GT.X.value: (flag, (labels...))})."""
+    out: Dict[str, List[Tuple[Optional[FuncInfo], Set[str], ast.AST, ModuleInfo]]] = {}
+
+    def scan_dict(n: ast.Dict, f: Optional[FuncInfo], m: ModuleInfo):
+        for k, v in zip(n.keys, n.values):
+            if k is None:
+                continue
+            g = label_of(r, f, m, k, gt)
+            if g is None:
+                continue
+            cols: Set[str] = set()
+            for sub in ast.walk(v):
+                if isinstance(sub, (ast.List, ast.Tuple)):
+                    labs = [label_of(r, f, m, e, lab) for e in sub.elts]
+                    if labs and all(l is not None for l in labs):
+                        cols |= set(labs)
+            if cols:
+                out.setdefault(g, []).append((f, cols, k, m))
+
     for f in p.all_funcs:
         if isinstance(f.node, ast.Lambda):
             continue
         for n in body_nodes(f):
             if isinstance(n, ast.Dict):
-                for k, v in zip(n.keys, n.values):
-                    if k is None:
-                        continue
-                    g = label_of(r, f, f.module, k, gt)
-                    if g is None:
-                        continue
-                    if isinstance(v, ast.Subscript) and isinstance(v.slice, (ast.List, ast.Tuple)):
-                        cols = set()
-                        for e in v.slice.elts:
-                            l = label_of(r, f, f.module, e, lab)
-                            if l is not None:
-                                cols.add(l)
-                        out.setdefault(g, []).append((f, cols, k))
+                scan_dict(n, f, f.module)
+    for m in p.modules.values():
+        for st in m.tree.body:
+            if isinstance(st, (ast.Assign, ast.AnnAssign)) and isinstance(getattr(st, "value", None), ast.Dict):
+                scan_dict(st.value, None, m)
     return out
 
 
@@ -126,7 +137,7 @@ def check_graph_tables(ctx: CheckContext, p: Program, r: Resolver, rule: str = "
     if gt is None or lab is None or gm is None:
         raise AnalysisError("GraphType / ProblemTableLabel / graph_data not found")
     produced = _graph_slices(p, r, gt, lab)
-    ctx.info["graph_types_produced"] = {g: sorted(set().union(*[c for _, c, _ in v])) for g, v in sorted(produced.items())}
+    ctx.info["graph_types_produced"] = {g: sorted(set().union(*[c for _, c, _, _ in v])) for g, v in sorted(produced.items())}
     consumed: Set[str] = set()
     series_flags: Dict[str, List[Tuple[FuncInfo, tuple, tuple, ast.AST]]] = {}
     for f in [x for x in p.all_funcs if x.module is gm and not isinstance(x.node, ast.Lambda)]:
@@ -165,11 +176,12 @@ def check_graph_tables(ctx: CheckContext, p: Program, r: Resolver, rule: str = "
                 okp = bool(prods)
                 ctx.ob(rule, f"{f.qualname}:{g}:producer", f"{f.module.relpath}:{c.lineno}", okp,
                        "" if okp else f"graph type GraphType.{g} is rendered but no function stores a table slice under it")
-                for (pf, pcols, pk) in prods:
+                for (pf, pcols, pk, pm) in prods:
                     missing = [x for x in ["T"] + cols if x not in pcols]
                     okc = not missing
-                    ctx.ob(rule, f"{f.qualname}:{g}:columns<={pf.qualname.split(':')[1]}", f"{f.module.relpath}:{c.lineno}", okc,
-                           "" if okc else f"graph {g} requests column(s) {missing} that {pf.qualname.split(':')[1]} does not slice for it (KeyError / wrong curve at run time)")
+                    pname = pf.qualname.split(':')[1] if pf is not None else f"{pm.name.split('.')[-1]} (module table)"
+                    ctx.ob(rule, f"{f.qualname}:{g}:columns<={pname}", f"{f.module.relpath}:{c.lineno}", okc,
+                           "" if okc else f"graph {g} requests column(s) {missing} that {pname} does not store for it (KeyError / wrong curve at run time)")
                 par = kws.get("stream_types") or kws.get("is_utility_profile")
                 if isinstance(par, (ast.List, ast.Tuple)) and cols:
                     okl = len(par.elts) == len(cols)
